@@ -1217,7 +1217,15 @@ fn oracle_c13(sc: &SchedScenario, ex: &ExecResult, base: &[Vec<u64>], out: &mut 
                 }
             }
             (_, f) => {
-                if !inspect_fault || !matches!(f, FinalOutcome::WaitErr(..) | FinalOutcome::AbortErr(..) | FinalOutcome::AbortOk(Some(_), _)) {
+                // C13 speaks about recoverable *errors* of the density. A density that returns garbage
+                // values (NaN / inf log density or gradient, energy jump) at the start point of the re-run
+                // step-size search makes that draw fail with "bad initial gradient"; that is C05's subject
+                // (accepted there), not a recoverable error: an Err value is accepted, a panic or hang is not.
+                let value_fault = ex.faults_fired.iter().any(|f| f.starts_with("density_") && !f.starts_with("density_recoverable_err") && !f.starts_with("density_unrecoverable_err"));
+                let is_err = matches!(f, FinalOutcome::WaitErr(..) | FinalOutcome::AbortErr(..) | FinalOutcome::AbortOk(Some(_), _));
+                if value_fault && is_err {
+                    out.probe("garbage_value_fault_ended_chain_with_err", 1);
+                } else if !inspect_fault || !is_err {
                     out.violate("C13/error_without_fatal_fault", format!("{tag}: final {}; faults fired: {:?}", short_final(f), ex.faults_fired));
                 }
             }
